@@ -46,6 +46,7 @@ class Ctx:
     clips: list = []         # (If-term, condition under which the clip is inactive)
     guards: list = []        # (If-term, guard condition) of every symbolic where
     index_obl: list = []     # (description, ok: bool)  gather/scatter index obligations
+    hint_obl: list = []      # (hint name, ok, indices) promises made to XLA about scatter indices
     api_calls: dict = {}     # primitive name -> number of conformant calls
     facts: list = []         # facts contributed by contract stubs (callee ensures)
     call_obl: list = []      # (name, z3 Bool) obligations raised at call sites (callee requires)
@@ -58,6 +59,7 @@ class Ctx:
         cls.clips = []
         cls.guards = []
         cls.index_obl = []
+        cls.hint_obl = []
         cls.api_calls = {}
         cls.facts = []
         cls.call_obl = []
@@ -683,9 +685,23 @@ class _AtIdx:
             v = np.asarray(arr(v), dtype=object) if not isinstance(arr(v), Sym) else _obj0(arr(v))
         return np.broadcast_to(v, shape)
 
+    def _hints(self, k, fi):
+        """`unique_indices=True` / `indices_are_sorted=True` are promises to XLA; a false promise gives undefined values
+        and wrong gradients, so each is an obligation"""
+        flat = np.asarray(fi).reshape(-1)
+        if k.get("unique_indices"):
+            ok = len(set(flat.tolist())) == len(flat)
+            Ctx.index_obl.append((f"scatter: unique_indices=True promised for indices {flat.tolist()[:12]}", ok))
+            Ctx.hint_obl.append(("unique_indices", ok, flat.tolist()[:24]))
+        if k.get("indices_are_sorted"):
+            ok = bool(np.all(np.diff(flat) >= 0))
+            Ctx.index_obl.append((f"scatter: indices_are_sorted=True promised for indices {flat.tolist()[:12]}", ok))
+            Ctx.hint_obl.append(("indices_are_sorted", ok, flat.tolist()[:24]))
+
     def set(self, v, **k):
         c = np.array(np.asarray(self.a), dtype=object, copy=True)
         fi = self._flat()
+        self._hints(k, fi)
         v = self._vals(v, np.shape(fi))
         cf = c.reshape(-1)
         for i, val in zip(np.asarray(fi).reshape(-1), v.reshape(-1)):
@@ -695,6 +711,7 @@ class _AtIdx:
     def add(self, v, **k):
         c = np.array(np.asarray(self.a), dtype=object, copy=True)
         fi = self._flat()
+        self._hints(k, fi)
         v = self._vals(v, np.shape(fi))
         cf = c.reshape(-1)
         for i, val in zip(np.asarray(fi).reshape(-1), v.reshape(-1)):
